@@ -94,7 +94,7 @@ def eval_case(ctx, case):
         # (3) create -dr  (case 'late': only after a plain create has already recorded the new paths and reported the old ones missing)
         if case.get("late") and si == 0 and renamed and r0.exit == 10:
             t = post0
-        r1, post = run(ctx, t, ops.create("", fmts, dr=True), now + 10); stats["cmds"] += 1
+        r1, post = run(ctx, t, ops.create("", fmts, dr=True, i=case.get("dr_i")), now + 10); stats["cmds"] += 1
         if r1.exc is not None or r1.exit != 0:
             V("dr-create-fails", f"{desc}: create -dr exit {r1.exit} {r1.exc}\n{r1.err[-400:]}", exit=r1.exit,
               exc=(r1.exc or "").split(":")[0] or None)
@@ -171,16 +171,23 @@ def main(tier, seed):
                ("small-files-other-format", {"p": DIR, "q": DIR, "p/empty.lock": b"", "q/one.bin": b"1"}, [c("", ["md5"])], ["xxh64"])]
     if tier == "thorough":
         layouts.append(("flat4", FLAT4, [c("", ["xxh64"])], ["xxh64"]))
+    # a recorded folder that the rename generation excludes (-i given with that run) while a file moves into a new folder and
+    # the format changes: folders are compared with folders and files with files
+    layouts.append(("excluded-folder-other-format", {"p": DIR, "q": DIR, "p/a.txt": b"content of a", "cache": DIR, "cache/t.db": b"thumbs",
+                                                     "q/s.txt": b"stays"}, [c("", ["md5"])], ["xxh64"]))
     for name, tree, prep, fmts in layouts:
         try:
             base = ops.build(ctx, tree, prep, expect=[0] * len(prep))
         except ops.ScenarioFailure as f:
             eng.notes.setdefault("skipped_scenarios", []).append(str(f)[:300])
             continue
-        files = sorted(p for p, v in tree.items() if v is not DIR)
+        files = sorted(p for p, v in tree.items() if v is not DIR and not p.startswith("cache/"))
         hd = {f: ["p", "q"] for f in files}
-        asg = assignments(tree, hd, files, KINDS + ("newdir", "toroot") if name == "flat-other-format" else KINDS)
+        asg = assignments(tree, hd, files, KINDS + ("newdir", "toroot") if name in ("flat-other-format", "excluded-folder-other-format") else KINDS)
         for mp in asg:
+            if name == "excluded-folder-other-format":
+                cases.append({"layout": name, "base": base, "mapping": mp, "fmts": fmts, "dr_i": ["cache"]})
+                continue
             cases.append({"layout": name, "base": base, "mapping": mp, "fmts": fmts})
             if name == "flat":
                 cases.append({"layout": name, "base": base, "mapping": mp, "fmts": fmts, "extra": True})
@@ -199,7 +206,7 @@ def main(tier, seed):
                         if len(set(step2.values())) != len(step2) or tgt in ref.media(base):
                             continue
                         steps = [mp, step2]
-                        if tier == "thorough":
+                        if tier == "thorough" or (k == "rename" and len(cases) % 5 == 0):
                             f3 = tgt
                             step3 = {g: ((ref.parent(g) + "/third-name.txt") if g == f3 else g) for g in step2.values()}
                             cases.append({"layout": "flat-chain3", "base": base, "mapping": mp, "steps": steps + [step3], "fmts": fmts})
